@@ -127,10 +127,18 @@ def install_np(modnames):
         setattr_mod(n, 'np', SHIM, 'numpy shim')
 
 
+def _exact(a, b, sign):
+    # decimal arithmetic on the decimal values the operands denote: exact, also in the relaxed-float model
+    if isinstance(a, sx.RelaxReal) or isinstance(b, sx.RelaxReal):
+        t = sx.real_term(a) + sx.real_term(b) if sign > 0 else sx.real_term(a) - sx.real_term(b)
+        return sx.RelaxReal(t, sx.SymReal._npf_of(a) or sx.SymReal._npf_of(b))
+    return a + b if sign > 0 else a - b
+
+
 def sym_sum_floats(real):
     def f(a, b):
         if sx.is_sym(a) or sx.is_sym(b):
-            return a + b
+            return _exact(a, b, 1)
         return real(a, b)
     return f
 
@@ -138,7 +146,7 @@ def sym_sum_floats(real):
 def sym_subtract_floats(real):
     def f(a, b):
         if sx.is_sym(a) or sx.is_sym(b):
-            return a - b
+            return _exact(a, b, -1)
         return real(a, b)
     return f
 
